@@ -136,32 +136,66 @@ def flatten(cmd):
     return [cmd]
 
 
-def scope_of(m, case, upto, pre, cmd):
-    """('steals'|'cycle'|None) for the command word[upto]; compounds are examined member by member on a
-    scratch replay (each member against the state it will really meet)"""
+def relink_prone(m, d, p):
+    """cells whose ORDER the undo of the primitive p (executed on dump d) is known not to restore: undo
+    re-establishes a link through the ordinary setter, which appends the owner to the many-valued opposite
+    end of its partner (finding F-C06-relink-order)"""
+    k = p[0]
+    if k not in ('Set', 'Remove', 'Move') or p[2] >= len(m.ff):
+        return set()
+    x, fi = p[1], p[2]
+    cur = d['objs'][x]['feats'].get(fi)
+    g = m.opp.get(fi)
+    if cur is None or g is None or not m.fd(g)['many'] or m.fd(fi)['kind'] != 'ref':
+        return set()
+    n = len(cur)
+    if k == 'Set':
+        partners = koracle.objs_of(cur)
+    elif p[3] is not None:
+        partners = [p[3][1]] if p[3][0] == 'o' else []
+    else:
+        i = p[4]
+        partners = koracle.objs_of([cur[i]]) if i is not None and n and -n <= i < n else []
+    return {(q, g) for q in partners}
+
+
+def analyse(m, case, upto, pre, cmd):
+    """(scope, stale, prone) for the command word[upto].
+    scope: 'steals' | 'cycle' | None (the side condition of the property / acyclicity);
+    stale: a Compound one of whose members, executed on its own in the state it will really meet, would be
+    refused (can_execute False) or raise - the compound was accepted because CommandStack.execute asks every
+    member before the first one runs;
+    prone: the cells whose order undo is known not to restore (relink_prone of every member, in the state
+    the member meets).
+    Compounds are examined member by member on a scratch replay."""
     if cmd[0] != 'Compound':
         if prim_cycle(m, pre, cmd):
-            return 'cycle'
-        return 'steals' if prim_steals(m, pre, cmd) else None
+            return 'cycle', False, set()
+        return ('steals' if prim_steals(m, pre, cmd) else None), False, relink_prone(m, pre, cmd)
     prims = flatten(cmd)
-    if not any(p[0] in ('Set', 'Add') for p in prims):
-        return None
-    if len(prims) == 1:
-        return scope_of(m, case, upto, pre, prims[0])
+    if len(prims) <= 1:
+        return analyse(m, case, upto, pre, prims[0]) if prims else (None, False, set())
     sc = c06impl.CmdWorld(dict(case, word=case['word'][:upto]), observers=False)
     for sop in case['word'][:upto]:
         sc.do(sop)
-    steals = False
+    steals = stale = False
+    prone = set()
     for p in prims:
         try:
             d = sc.dump()
         except RecursionError:
-            return 'cycle'
+            return 'cycle', stale, prone
         if prim_cycle(m, d, p):
-            return 'cycle'
+            return 'cycle', stale, prone
         steals = steals or prim_steals(m, d, p)
-        sc.do(['exec', p])      # a member that fails here may still run inside the compound: keep looking
-    return 'steals' if steals else None
+        prone |= relink_prone(m, d, p)
+        if sc.do(['exec', p]) != 0:     # it may still run inside the compound: keep looking
+            stale = True
+    return ('steals' if steals else None), stale, prone
+
+
+def scope_of(m, case, upto, pre, cmd):
+    return analyse(m, case, upto, pre, cmd)[0]
 
 
 # ---------------------------------------------------------------- comparison of two dumps, as the property words it
@@ -273,11 +307,14 @@ def diff_classes(m, cmd, diffs):
     return sorted(out)
 
 
-def relink_only(m, cmd, diffs):
-    """are all differences order differences in many-valued opposite ends that no member of the command
-    addresses itself?  (what the property tolerates after a Delete has been removed before)"""
+def relink_only(m, cmd, diffs, prone=()):
+    """are all differences order differences in many-valued opposite ends where undo is known to append?
+    primitive commands and Delete: ends that the command does not address itself; Compounds: the cells that
+    `analyse` found relink-prone for a member in the state that member met"""
     prims = flatten(cmd)
     has_del = any(p[0] == 'Delete' for p in prims)
+    if cmd[0] == 'Compound' and not has_del:
+        return all(cls == 'order' and key in prone for cls, key, _ in diffs)
     own = {(p[1], p[2]) for p in prims if p[0] != 'Delete'}
     touched = {p[2] for p in prims if p[0] != 'Delete'}
     for cls, key, _ in diffs:
@@ -309,17 +346,7 @@ def twice_recorded(m, pre, cmd):
     return False
 
 
-def members_interfere(m, cmd):
-    """do two members of the compound address the same feature slot, directly or through the opposite end?"""
-    cellz = [(p[1], p[2]) for p in flatten(cmd) if p[0] != 'Delete']
-    for i, (x, f) in enumerate(cellz):
-        for (y, g) in cellz[i + 1:]:
-            if (x, f) == (y, g) or (f < len(m.ff) and m.opp.get(f) == g):
-                return True
-    return False
-
-
-def signature(m, clause, cmd, pre, diffs, extra=()):
+def signature(m, clause, cmd, pre, diffs, extra=(), prone=()):
     if clause == 'truncate':
         return {'property': PID, 'clause': clause, 'kind': 'CommandStack', 'shape': {},
                 'qualifiers': ['superseded-command-reapplied' if diffs else 'redo-did-not-raise']}
@@ -328,19 +355,28 @@ def signature(m, clause, cmd, pre, diffs, extra=()):
     shape = {}
     if cmd and k not in ('Delete', 'Compound') and cmd[2] < len(m.ff):
         shape = krun.shape(m, ['cmd', cmd[1], cmd[2]])
-    if cmd and diffs and not [x for x in extra if x not in ('partial-effect',)] and relink_only(m, cmd, diffs):
+    if cmd and diffs and not [x for x in extra if x not in ('partial-effect',)] and relink_only(m, cmd, diffs, prone):
         # one defect whatever the command and the index: a link is re-established through append() on the
         # many-valued opposite end, so the owner comes back at the end of its partner's collection
         return {'property': PID, 'clause': 'undo' if clause == 'can_execute-raised' else clause, 'kind': 'relink',
                 'shape': {'opposite': 'many'}, 'qualifiers': ['partner-collection-order']}
     if 'refused-by-can_undo' in extra:
         return {'property': PID, 'clause': clause, 'kind': k, 'shape': shape, 'qualifiers': ['refused-by-can_undo']}
-    if k == 'Compound' and members_interfere(m, cmd):
-        # one defect: can_execute of every member is asked before the first member runs (and can_undo after the
-        # last one), so members that address the same collection decide on a state they will not meet
-        # (a failing member makes Compound.execute undo the members already run: same clause)
+    if k == 'Compound' and prone and not has_delete(cmd) and 'member-not-executable-when-reached' not in extra:
+        # the same re-linking, seen through another member: the owner comes back at the END of a collection
+        # that another member of the compound addresses by position, whose undo then works one place off
+        own = {(p[1], p[2]) for p in flatten(cmd)}
+        hit = own & set(prone)
+        if hit and any(key in hit for _, key, _ in diffs):
+            return {'property': PID, 'clause': 'undo' if clause == 'can_execute-raised' else clause, 'kind': 'relink',
+                    'shape': {'opposite': 'many'},
+                    'qualifiers': ['partner-collection-order', 'shifts-position-used-by-another-member']}
+    if k == 'Compound' and 'member-not-executable-when-reached' in extra:
+        # one defect: can_execute of every member is asked before the first member runs, so a member can be
+        # accepted that would be refused (or raise) in the state the earlier members leave; what it records
+        # for undo is then wrong (a failing member makes Compound.execute undo the members already run: same clause)
         return {'property': PID, 'clause': 'undo' if clause == 'can_execute-raised' else clause, 'kind': k,
-                'shape': shape, 'qualifiers': ['members-interfere']}
+                'shape': shape, 'qualifiers': ['member-not-executable-when-reached']}
     if any(p[0] == 'Delete' for p in flatten(cmd)) and twice_recorded(m, pre, cmd):
         quals_extra = ['link-inside-deleted-subtree-through-nonunique-reference']
         return {'property': PID, 'clause': 'undo' if clause == 'can_execute-raised' else clause, 'kind': 'Delete',
@@ -350,6 +386,25 @@ def signature(m, clause, cmd, pre, diffs, extra=()):
 
 
 # ---------------------------------------------------------------- oracle on the implementation
+STALE = ('member-not-executable-when-reached',)
+
+
+def compound_class(m, cmd):
+    """how the members of a compound relate: 'same-slot' (two members address one feature slot),
+    'opposite-ends' (a member addresses the opposite end of another member's feature), 'independent'"""
+    prims = [p for p in flatten(cmd) if p[0] != 'Delete']
+    cls = 'independent'
+    for i, p in enumerate(prims):
+        for q in prims[i + 1:]:
+            if (p[1], p[2]) == (q[1], q[2]):
+                return 'same-slot'
+            if p[2] < len(m.ff) and m.opp.get(p[2]) == q[2]:
+                cls = 'opposite-ends'
+            if p[2] == q[2] and p[1] != q[1]:
+                cls = 'same-feature' if cls == 'independent' else cls
+    return cls
+
+
 class Verdict:
     def __init__(self):
         self.failure = None          # {'index', 'clause', 'signature', 'what'}
@@ -368,7 +423,7 @@ def evaluate(case, record=True):
     run_start = None        # (dump before the current run of undos, number of successful undos, redos so far)
     for i, sop in enumerate(case['word']):
         kind = sop[0]
-        scope = scope_of(m, case, i, pre, sop[1]) if kind == 'exec' else None
+        scope, stale, prone = analyse(m, case, i, pre, sop[1]) if kind == 'exec' else (None, False, set())
         if scope == 'cycle':
             v.stopped = ('containment-cycle', i)
             break
@@ -385,20 +440,28 @@ def evaluate(case, record=True):
                             'stack': (w.stack.stack_index, len(w.stack.stack))})
         v.stats[kind] += 1
         fail = None
+        fprone = prone
         if kind == 'exec':
             cmd = sop[1]
             run_start = None
             if code == 0:
-                done.append({'cmd': cmd, 'pre': pre, 'post': post, 'scope': scope, 'index': i})
+                done.append({'cmd': cmd, 'pre': pre, 'post': post, 'scope': scope, 'index': i, 'stale': stale,
+                             'prone': prone})
                 undone = []
                 v.stats['exec-ok:' + cmd[0]] += 1
+                if cmd[0] == 'Compound':
+                    v.stats['exec-ok:Compound:' + compound_class(m, cmd)] += 1
+                    if stale:
+                        v.stats['exec-ok:Compound:stale-member'] += 1
                 if scope:
                     v.stats['exec-ok-out-of-scope'] += 1
             else:
                 v.stats['exec-raised'] += 1
-                diffs, _ = state_diff(m, pre, post)
+                # a failing Compound undoes the members already run: a Delete among them is undone
+                diffs, _ = state_diff(m, pre, post, delete_exception=has_delete(cmd))
                 if diffs and not scope:
-                    fail = ('can_execute-raised', cmd, pre, diffs, ('partial-effect',),
+                    fail = ('can_execute-raised', cmd, pre, diffs,
+                            ('partial-effect',) + (STALE if stale else ()),
                             f'{cmd} raised (code {code}) after changing the model: {diffs[0][2]}')
                 elif diffs:
                     v.stopped = ('out-of-scope-command-raised', i)
@@ -411,6 +474,7 @@ def evaluate(case, record=True):
                 v.stats['undo-empty'] += 1
             else:
                 e = done[-1]
+                fprone = e['prone']
                 if e['scope']:
                     v.stopped = ('undo-of-out-of-scope-command', i)
                     break
@@ -418,13 +482,13 @@ def evaluate(case, record=True):
                 diffs, tolerated = state_diff(m, e['pre'], post, delete_exception=exc)
                 if idx_after == idx_before and not state_diff(m, pre, post)[0]:
                     # the call had no effect at all: can_undo answered False (undo() then returns silently) or raised
-                    fail = ('undo', e['cmd'], e['pre'], [], ('refused-by-can_undo',),
+                    fail = ('undo', e['cmd'], e['pre'], [], ('refused-by-can_undo',) + (STALE if e['stale'] else ()),
                             f'undo of {e["cmd"]} did nothing (code {code}): the command stays on top of the stack')
                 elif code != 0:
-                    fail = ('undo', e['cmd'], e['pre'], diffs, ('raised',),
+                    fail = ('undo', e['cmd'], e['pre'], diffs, ('raised',) + (STALE if e['stale'] else ()),
                             f'undo of {e["cmd"]} raised (code {code})')
                 elif diffs:
-                    fail = ('undo', e['cmd'], e['pre'], diffs, (),
+                    fail = ('undo', e['cmd'], e['pre'], diffs, (STALE if e['stale'] else ()),
                             f'undo of {e["cmd"]} does not restore the state: {diffs[0][2]}')
                 else:
                     done.pop()
@@ -447,11 +511,13 @@ def evaluate(case, record=True):
                 v.stats['redo-nothing'] += 1
             else:
                 e = undone[-1]
+                fprone = e['prone']
                 diffs, _ = state_diff(m, e['post'], post)
                 if code != 0:
-                    fail = ('redo', e['cmd'], e['pre'], diffs, ('raised',), f'redo of {e["cmd"]} raised (code {code})')
+                    fail = ('redo', e['cmd'], e['pre'], diffs, ('raised',) + (STALE if e['stale'] else ()),
+                            f'redo of {e["cmd"]} raised (code {code})')
                 elif diffs:
-                    fail = ('redo', e['cmd'], e['pre'], diffs, (),
+                    fail = ('redo', e['cmd'], e['pre'], diffs, (STALE if e['stale'] else ()),
                             f'redo of {e["cmd"]} does not bring back the state after it: {diffs[0][2]}')
                 else:
                     undone.pop()
@@ -464,13 +530,14 @@ def evaluate(case, record=True):
                             v.stats['k-undo-redo-checked'] += 1
                             v.stats[f'k-undo-redo-k={run_start[1]}'] += 1
                             if d2:
-                                fail = ('k-undo-redo', e['cmd'], e['pre'], d2, (f'k={run_start[1]}',),
+                                fail = ('k-undo-redo', e['cmd'], e['pre'], d2,
+                                        (f'k={run_start[1]}',) + (STALE if e['stale'] else ()),
                                         f'{run_start[1]} undos then {run_start[1]} redos: {d2[0][2]}')
                             run_start = None
         if fail:
             clause, cmd, fpre, diffs, extra, what = fail
             v.failure = {'index': i, 'clause': clause, 'what': f'C06/{clause}: {what}',
-                         'signature': signature(m, clause, cmd, fpre, diffs, extra)}
+                         'signature': signature(m, clause, cmd, fpre, diffs, extra, fprone)}
             break
         pre = post
     return v
@@ -612,8 +679,112 @@ def gen_prim(m, case, d, rng, focus=None):
     return ['Delete', rng.randrange(len(objs))]
 
 
+def owners_of(case, fi):
+    """objects whose class has feature fi"""
+    return [o for o, c in enumerate(case['objs']) if fi in kgen.applicable(case['mm'], c)]
+
+
+def gen_related(m, case, d, rng, first):
+    """a second member acting on what `first` changes: the same slot, the slot of another owner for the same
+    element (a move expressed as Remove plus Add), or the opposite end of the element (Remove plus Set through
+    the container / opposite end, as in EMF)"""
+    if first[0] == 'Delete':
+        return gen_prim(m, case, d, rng)
+    k, x, fi = first[0], first[1], first[2]
+    if fi >= len(m.ff) or fi not in d['objs'][x]['feats']:
+        return gen_prim(m, case, d, rng, (x, fi))
+    fd = m.fd(fi)
+    cur = d['objs'][x]['feats'][fi]
+    n = len(cur)
+    g = m.opp.get(fi)
+    # the element the first member is about
+    elem = None
+    if k in ('Set', 'Add'):
+        elem = first[3]
+    elif k in ('Remove', 'Move'):
+        if first[3] is not None:
+            elem = first[3]
+        elif first[4] is not None and n and -n <= first[4] < n:
+            elem = untok(cur[first[4]])
+    r = rng.random()
+    if not fd['many']:
+        # Set then Set on the same slot, or the previous/new partner's end
+        if r < 0.5 or g is None or fd['kind'] != 'ref':
+            return ['Set', x, fi, gen_value(m, case, fd, rng, cur)]
+        gd = m.fd(g)
+        y = elem[1] if elem is not None and elem[0] == 'o' else None
+        prev = koracle.objs_of(cur)
+        tgt = rng.choice([t for t in ([y] if y is not None else []) + prev] or [None])
+        if tgt is None:
+            return ['Set', x, fi, gen_value(m, case, fd, rng, cur)]
+        if gd['many']:
+            return rng.choice([['Remove', tgt, g, ['o', x], None], ['Add', tgt, g, ['o', x], None]])
+        return ['Set', tgt, g, rng.choice([None, ['o', x]])]
+    idx = lambda extra=0: rng.randrange(-n - 1, n + 2 + extra)
+    if elem is None or r < 0.3:
+        # same slot, another operation
+        k2 = rng.choice(['Add', 'Remove', 'Move', 'Add', 'Remove'])
+        if k2 == 'Add':
+            v = elem if elem is not None and rng.random() < 0.6 else gen_value(m, case, fd, rng, cur)
+            return ['Add', x, fi, v, rng.choice([None, idx()])]
+        if k2 == 'Remove':
+            if elem is not None and rng.random() < 0.6:
+                return ['Remove', x, fi, elem, None]
+            return ['Remove', x, fi, None, idx()]
+        if elem is not None and rng.random() < 0.5:
+            return ['Move', x, fi, elem, None, idx()]
+        return ['Move', x, fi, None, idx(), idx()]
+    if fd['kind'] == 'ref' and elem[0] == 'o' and g is not None and r < 0.65:
+        # the opposite end of the element
+        gd = m.fd(g)
+        y = elem[1]
+        others = [o for o in owners_of(case, fi) if o != x]
+        x2 = rng.choice(others) if others and rng.random() < 0.7 else x
+        if gd['many']:
+            return rng.choice([['Add', y, g, ['o', x2], None], ['Remove', y, g, ['o', x], None]])
+        return ['Set', y, g, rng.choice([['o', x2], ['o', x2], None])]
+    # the same element in the slot of another owner (or back into the same collection elsewhere)
+    others = [o for o in owners_of(case, fi) if o != x]
+    x2 = rng.choice(others) if others and rng.random() < 0.75 else x
+    n2 = len(d['objs'][x2]['feats'].get(fi, []))
+    if k in ('Remove', 'Move'):
+        return ['Add', x2, fi, elem, rng.choice([None, None, rng.randrange(-n2 - 1, n2 + 2)])]
+    return ['Remove', x2, fi, elem, None]
+
+
+def gen_idiom_first(m, case, d, rng):
+    """a first member worth following up: a Remove / Set / Add on a slot that holds something, references preferred"""
+    best = None
+    for _ in range(12):
+        p = gen_prim(m, case, d, rng)
+        if p[0] == 'Delete' or p[2] >= len(m.ff):
+            continue
+        cur = d['objs'][p[1]]['feats'].get(p[2])
+        if cur is None:
+            continue
+        fd = m.fd(p[2])
+        score = (2 if fd['kind'] == 'ref' else 0) + (2 if m.opp.get(p[2]) is not None else 0) \
+            + (1 if p[0] in ('Remove', 'Set') else 0) + (2 if any(t[0] != 0 for t in cur) else 0)
+        if best is None or score > best[0] or (score == best[0] and rng.random() < 0.5):
+            best = (score, p)
+        if score >= 6:
+            break
+    return best[1] if best else gen_prim(m, case, d, rng)
+
+
 def gen_cmd(m, case, d, rng):
-    if rng.random() < 0.14:
+    r = rng.random()
+    if r < 0.10:
+        # members that act on what earlier members change (moves as Remove + Add, Remove + Set through the
+        # opposite end, Set + Set, Add + Remove of one element)
+        first = gen_idiom_first(m, case, d, rng)
+        subs = [first, gen_related(m, case, d, rng, first)]
+        if rng.random() < 0.25:
+            subs.append(gen_related(m, case, d, rng, rng.choice(subs)))
+        if rng.random() < 0.15:
+            subs = [subs[0], ['Compound', subs[1:]]]
+        return ['Compound', subs]
+    if r < 0.20:
         n = rng.choice([0, 1, 2, 2, 3, 3])
         first = gen_prim(m, case, d, rng)
         focus = (first[1], first[2]) if first[0] != 'Delete' else None
@@ -731,6 +902,20 @@ CORPUS = [
      'word': [['exec', ['Delete', 0]], ['undo'], ['redo'], ['undo']]},
     {'templates': ['ains'], 'history': [['append', 0, 0, ['i', 1]]],
      'word': [['exec', ['Compound', [['Add', 0, 0, ['i', 7], 0], ['Remove', 0, 0, None, 0]]]], ['undo'], ['redo']]},
+    # a move the EMF way: Remove from the old parent, then Set the container end / Add to the new parent
+    {'templates': ['ckn'], 'history': [['append', 0, 0, ['o', 3]], ['append', 0, 0, ['o', 4]]],
+     'word': [['exec', ['Compound', [['Remove', 0, 0, ['o', 3], None], ['Set', 3, 1, ['o', 1]]]]],
+              ['undo'], ['redo'], ['undo'], ['redo']]},
+    {'templates': ['ckn'], 'history': [['append', 0, 0, ['o', 3]], ['append', 0, 0, ['o', 4]]],
+     'word': [['exec', ['Compound', [['Remove', 0, 0, None, 0], ['Add', 1, 0, ['o', 3], None]]]],
+              ['undo'], ['redo'], ['undo']]},
+    {'templates': ['p1n'], 'history': [['set', 0, 0, ['o', 3], 'attr'], ['set', 1, 0, ['o', 3], 'attr']],
+     'word': [['exec', ['Compound', [['Remove', 3, 1, ['o', 1], None], ['Set', 1, 0, ['o', 4]]]]],
+              ['undo'], ['redo'], ['undo']]},
+    {'templates': ['p11'], 'history': [['set', 0, 0, ['o', 3], 'attr']],
+     'word': [['exec', ['Compound', [['Set', 0, 0, None], ['Set', 1, 0, ['o', 3]]]]], ['undo'], ['redo'], ['undo']]},
+    {'templates': ['ai'], 'history': [['set', 0, 0, ['i', 1], 'attr']],
+     'word': [['exec', ['Compound', [['Set', 0, 0, ['i', 7]], ['Set', 0, 0, ['i', -1]]]]], ['undo'], ['redo'], ['undo']]},
 ]
 
 
